@@ -101,6 +101,7 @@ type dNode struct {
 	logBuf bytes.Buffer
 	since  time.Time
 	stopped map[string]bool // beacon ids stopped through the control API
+	limbo    map[string]bool // beacon ids whose load failed half-way
 	routeVer int            // odd while a chain is being stopped or loaded
 	pc       persistCtl
 	zombie   bool
@@ -119,6 +120,7 @@ type dNode struct {
 	followErr     error
 	followEnded   bool
 	dkgTrack      *dkgTrack
+	loosened      map[string][32]byte // secret files given a wider mode by hand (restored backup): name -> content then
 }
 
 func (n *dNode) bumpRoute() {
